@@ -301,6 +301,12 @@ func setAlgebra(d *DB, a [][]byte, op string, store bool) Reply {
 	var sets []map[string]struct{}
 	for _, k := range a[first:] {
 		e, exists, isS := d.set(string(k))
+		if !exists && op == "inter" {
+			// the reference stops at the first missing operand: the intersection is
+			// empty and the types of the remaining operands are not looked at
+			sets = []map[string]struct{}{{}}
+			break
+		}
 		if exists && !isS {
 			return wrongType()
 		}
